@@ -290,9 +290,9 @@ swapped rounds and a flipped proof bit are rejected. distinct = (width, height, 
     }
     total.count("shapes_total", shapes.len() as u64);
     let dcs: &[u8] = if tier == "miri" { &[2] } else { &[1, 2, 3, 4, 8] };
-    let stride = if tier == "miri" { 400 } else { 1 };
+    let stride = if tier == "miri" { 1 } else { 1 };
     let reps = match tier {
-        "thorough" => 8,
+        "thorough" => 32,
         _ => 1,
     };
     let shapes_ref = &shapes;
@@ -303,6 +303,10 @@ swapped rounds and a flipped proof bit are rejected. distinct = (width, height, 
         while i < shapes_ref.len() {
             let (w, h) = shapes_ref[i];
             let cells = w as usize * h as usize;
+            if tier == "miri" && cells > 6 {
+                i += 64 * stride;
+                continue;
+            }
             for &dc in dcs {
                 for rrep in 0..reps {
                     let mut counts: Vec<u8> = vec![1, 2, 3, (cells.saturating_sub(1)) as u8, cells as u8];
